@@ -16,6 +16,29 @@ CLAIMS = {
               "hand model run against the real functions on adversarial branch lists (stream S05)."),
         note=TB + " Hand-modelled, not verified: node collection order, the point query of the spatial index (assumed to return bit-identical ends), WKT-key injectivity.",
         ref="DESIGN.md section 6 C05", technique="Lean 4 theorems over regenerated decision functions + hand model with differential correspondence"),
+    "C08": dict(
+        text=("Proof (Lean 4): determine_topology_parameters is re-translated from /repo on every run and proved equal, entry by entry, to the published "
+              "Sanderson-Nixon / Mauldon definitions (hand-written Spec.NetIn.param) for ALL rational counts, length lists, areas, pi, sqrt and both values of "
+              "the circular flag, never raising; zero-denominator corollaries, Mauldon-only-circular, nan without topology, boundary weights 1/2/0, "
+              "bool-array sums, branch boundary count = number of E ends. Tie: translator + stream S08a (the real functions vs the spec evaluated exactly)."),
+        note=TB + " numpy float reductions compared within 1e-9 relative; np.pi / np.sqrt are parameters. End-to-end Network.parameters on valid maps is covered under C01/C14 streams when built.",
+        ref="DESIGN.md section 6 C08", technique="Lean 4 theorems over the regenerated parameter function against a hand-written published-definition spec"),
+    "C15": dict(
+        text=("Proof (Lean 4) over regenerated azimuth_post / is_set / determine_set / _calc_bins / _calc_locs: azimuth in [0,180) and equal to (90-d) mod 180 "
+              "for every d in (-180,180], reversal invariance, set assignment = unique containing (wrap-around) range and never raises for pairwise "
+              "non-overlapping ranges (all range lists), bins for every positive width: n = ceil(180/w) equal bins ending exactly at 180. "
+              "The package's default ranges share their ends: proved witness C15_F4 (known finding) and C15_default_partial for all other values. "
+              "Tie: translator + stream S15 (all directions incl. ulp-near axes, 7 range tuples at and around every range end, ALL sample sizes 1..5000 for the bins)."),
+        note=TB + " atan2/degrees are a parameter d of the model; float rounding of 90-d is compared within 1e-9 circularly; the float np.arange edge count is only swept (1..5000), not proved.",
+        ref="DESIGN.md section 6 C15", technique="Lean 4 theorems over regenerated functions + exhaustive sweep of the float-dependent bin count"),
+    "C20": dict(
+        text=("Proof (Lean 4): grouping is a partition for every list and every interleaving (flat(group xs) is a permutation of xs, one group per name); "
+              "the regenerated Param->Aggregator table is additive exactly for Area, the four counts and Circle Count and C20_aggregate gives sum / area-weighted mean / "
+              "joined-string for every column list and row list; regenerated random_radius / random_area lie in range for u in [0,1), centre buffer = R - r. "
+              "Tie: translator for the table and the radius arithmetic; hand model of grouping and of the per-column aggregator dispatch run against the real "
+              "group_gathered_subsamples / aggregate_chosen / NetworkRandomSampler (stream S20)."),
+        note=TB + " The triangle inequality for the sample circle is a hypothesis of C20_circle_inside (checked numerically per sample with exact squared distances); polygonal circle approximation ignored.",
+        ref="DESIGN.md section 6 C20", technique="Lean 4 theorems (permutation/partition, table by decide, interval arithmetic) + differential correspondence"),
 }
 NA_REASON = "not built yet in this round: model, theorems and correspondence stream are planned in DESIGN.md section 6 and will be claimed when they run"
 
